@@ -145,6 +145,97 @@ theorem findCharByUuid_unique (d : ServerDecl) (c : CharDecl) (hc : c ∈ allCha
     simp only [beq_iff_eq] at h1
     rw [hu c' h2 h1]
 
+/-! ### characteristic UUIDs that occur more than once
+
+  Nothing above assumes distinct UUIDs: `lookup_by_uuid` asks for `findCharByUuid d c.uuid = some c`,
+  i.e. that `c` is the *first* characteristic with its UUID.  That is the reading of "the requested
+  characteristic" for `notify< UUID >()` / `indicate< UUID >()` when several characteristics share
+  the UUID: the first one in declaration order (services in the order of the server's option
+  list, characteristics in the order of the service's) — it is the characteristic the call is
+  type checked against (`find_characteristic_data_by_uuid_in_service_list`, the `static_assert`s on
+  `has_notification` / `has_indication`, `configured_for_notifications< UUID >`), and it must not
+  depend on the outgoing priorities ("with or without outgoing priorities"). -/
+
+/-- the characteristic a request by UUID `u` is about, read off the attribute table layout: the
+    first one with that UUID, together with the index of its declaration attribute -/
+def requestedByUuid (d : ServerDecl) (u : Nat) : Option (CharDecl × Nat) :=
+  (attrLayout d).find? fun p => p.1.uuid == u
+
+theorem findCharByUuid_layout (d : ServerDecl) (u : Nat) :
+    findCharByUuid d u = (requestedByUuid d u).map Prod.fst := by
+  unfold findCharByUuid requestedByUuid
+  rw [← allChars_layout, List.find?_map]
+  rfl
+
+/-- **C10**, shared UUIDs: whatever else carries the UUID `u`, wherever the priorities sort it —
+    `notify< u >()` / `indicate< u >()` queue the first characteristic with UUID `u` in declaration
+    order (`hreq`), `j` being its number among the characteristics with a CCCD.  (`hu`: no second
+    characteristic of the identical C++ type — same UUID, variable and options —, which no lookup
+    could tell apart.)  If the first characteristic with the UUID has no CCCD or not the property
+    the call does not compile (`lookup_by_uuid_unnotifiable`). -/
+theorem lookup_by_uuid_shared (d : ServerDecl) (u : Nat) (j : Nat) (c : CharDecl) (idx : Nat) (k : Kind)
+    (hreq : requestedByUuid d u = some (c, idx))
+    (hj : (cccdChars d)[j]? = some (c, idx)) (hk : c.has k = true)
+    (hu : ∀ j' idx', (cccdChars d)[j']? = some (c, idx') → j' = j) :
+    lookup d (.byUuid u) k = some ⟨idx + 1, sortedPos d j⟩ := by
+  have hcu : c.uuid = u := by
+    have := List.find?_some hreq
+    simpa using this
+  have hfirst : findCharByUuid d c.uuid = some c := by
+    rw [findCharByUuid_layout, hcu, hreq]; rfl
+  rw [← hcu]
+  exact lookup_by_uuid d j c idx hj k hk hfirst hu
+
+theorem lookup_by_uuid_unnotifiable (d : ServerDecl) (u : Nat) (c : CharDecl) (idx : Nat) (k : Kind)
+    (hreq : requestedByUuid d u = some (c, idx)) (hk : c.has k = false) :
+    lookup d (.byUuid u) k = none := by
+  have : findCharByUuid d u = some c := by rw [findCharByUuid_layout, hreq]; rfl
+  simp only [lookup, this, hk]
+  rfl
+
+/-- harness server X1: UUID 0xA001 in two services (variables 0 and 5), the second service has the
+    higher priority, so the later characteristic is sorted in front of the first one -/
+def sharedUuidDecl : ServerDecl :=
+  { services := [{ uuid := 0x1001, nSvcAttrs := 1, prio := [],
+                   chars := [⟨0xA001, 0, 1, true, true, false, 0⟩, ⟨0xA002, 1, 2, true, true, false, 0⟩] },
+                 { uuid := 0x1002, nSvcAttrs := 1, prio := [],
+                   chars := [⟨0xA001, 5, 1, true, true, true, 0⟩, ⟨0xA003, 2, 4, true, false, true, 0⟩] }],
+    prio := [0x1002], mtu := 23, handles := [1, 2, 3, 4, 5, 6, 7, 8, 9, 10, 11, 12, 13, 14] }
+
+/-- non-vacuity of `lookup_by_uuid_shared` with a UUID that really is shared and reordered: the
+    requested characteristic is #0 (declaration attribute 1, variable 0) although characteristic #2
+    with the same UUID is first in priority order (`sortedPos 2 = 0`, `sortedPos 0 = 2`) -/
+example : requestedByUuid sharedUuidDecl 0xA001 = some (⟨0xA001, 0, 1, true, true, false, 0⟩, 1) ∧
+    (cccdChars sharedUuidDecl)[0]? = some (⟨0xA001, 0, 1, true, true, false, 0⟩, 1) ∧
+    ((cccdChars sharedUuidDecl)[2]?).map (fun p => p.1.uuid) = some 0xA001 ∧
+    sortedPos sharedUuidDecl 2 = 0 ∧ sortedPos sharedUuidDecl 0 = 2 ∧
+    lookup sharedUuidDecl (.byUuid 0xA001) .notification = some ⟨2, 2⟩ ∧
+    lookup sharedUuidDecl (.byUuid 0xA001) .indication = none := by decide
+
+/-- the lookup a seeded change introduced (`equal_char` comparing `configured_uuid` instead of the
+    resolved characteristic type): first entry *in priority order* with the UUID -/
+def uuidLoop (u : Nat) : List Entry → Nat → Option NotifData
+  | [], _ => none
+  | e :: es, k => if e.char.uuid = u then some ⟨e.first + 1, k⟩ else uuidLoop u es (k + 1)
+
+/-- … which addresses another characteristic as soon as a shared UUID is reordered: in
+    `sharedUuidDecl` it yields value attribute 9 / index 0 (the characteristic of the second
+    service) where the code yields value attribute 2 / index 2 -/
+theorem match_by_uuid_witness :
+    uuidLoop 0xA001 (sorted sharedUuidDecl) 0 = some ⟨9, 0⟩ ∧
+    lookup sharedUuidDecl (.byUuid 0xA001) .notification = some ⟨2, 2⟩ := by decide
+
+/-- the CCCD flag index is the position *of* `j` in `cccd_indices` (`index_of`), not the `j`-th
+    element of `cccd_indices` (the inverse permutation): for a cyclic reordering (harness server C3:
+    a, b, c with `higher_outgoing_priority< c >`) the two differ -/
+theorem cccd_index_inverse_witness :
+    let d : ServerDecl :=
+      { services := [{ uuid := 0x1001, nSvcAttrs := 1, prio := [0xA003],
+                       chars := [⟨0xA001, 0, 1, true, true, false, 0⟩, ⟨0xA002, 1, 2, true, true, true, 0⟩,
+                                 ⟨0xA003, 2, 4, true, true, false, 0⟩] }],
+        prio := [], mtu := 23, handles := [1, 2, 3, 4, 5, 6, 7, 8, 9, 10] }
+    cccdIndices d = [2, 0, 1] ∧ [0, 1, 2].map (cccdFlagIndex d) = [1, 2, 0] := by decide
+
 /-! ## the queued request -/
 
 /-- **C10** `notify_by_value_correct` / `notify_by_uuid_correct`, request side: whichever way the
@@ -176,6 +267,18 @@ theorem notify_by_uuid_correct (d : ServerDecl) (j : Nat) (c : CharDecl) (idx : 
       (setConn st ci { conn with queue := (conn.queue.step (.queue k (sortedPos d j))).1 },
         .bool (squeueLv conn.queue.levels (sortedPos d j) k).2) :=
   request_queues_requested d st ci conn hconn _ k _ _ (lookup_by_uuid d j c idx h k hk hfirst hu)
+
+/-- `notify_by_uuid_correct` without any assumption on the other characteristics' UUIDs: the
+    request by UUID `u` queues the first characteristic with UUID `u` in declaration order -/
+theorem notify_by_uuid_shared_correct (d : ServerDecl) (u : Nat) (j : Nat) (c : CharDecl) (idx : Nat) (k : Kind)
+    (hreq : requestedByUuid d u = some (c, idx))
+    (hj : (cccdChars d)[j]? = some (c, idx)) (hk : c.has k = true)
+    (hu : ∀ j' idx', (cccdChars d)[j']? = some (c, idx') → j' = j)
+    (st : State) (ci : Nat) (conn : Conn) (hconn : st.conns[ci]? = some conn) :
+    request d st ci (.byUuid u) k =
+      (setConn st ci { conn with queue := (conn.queue.step (.queue k (sortedPos d j))).1 },
+        .bool (squeueLv conn.queue.levels (sortedPos d j) k).2) :=
+  request_queues_requested d st ci conn hconn _ k _ _ (lookup_by_uuid_shared d u j c idx k hreq hj hk hu)
 
 /-! ## the transmitted PDU -/
 
